@@ -193,3 +193,41 @@ func Relabel(v interface{}) interface{} {
 	}
 	return rec(v)
 }
+
+// WideDocs are documents wider than the node bound allows: containers of two or three
+// members that are themselves containers of two members (distinct leaves), in every
+// combination of object/array at both levels, plus a few three-level ones. They give every
+// step kind at least two branches at two consecutive levels.
+func WideDocs() []interface{} {
+	n := 0.0
+	leaf := func() interface{} { n++; return n }
+	inner := []func() interface{}{
+		func() interface{} { return map[string]interface{}{"a": leaf(), "b": leaf()} },
+		// keys that differ from the outer level's: a key buffer shared between two levels shows
+		func() interface{} { return map[string]interface{}{"a": leaf(), "c": leaf()} },
+		func() interface{} { return []interface{}{leaf(), leaf()} },
+		func() interface{} { return leaf() },
+		func() interface{} { return map[string]interface{}{"a": leaf()} },
+		func() interface{} { return nil },
+	}
+	var out []interface{}
+	for _, i1 := range inner {
+		for _, i2 := range inner {
+			i1, i2 := i1, i2
+			n = 0
+			out = append(out, map[string]interface{}{"a": i1(), "b": i2()})
+			n = 0
+			out = append(out, []interface{}{i1(), i2()})
+		}
+	}
+	// three members / three levels
+	n = 0
+	out = append(out,
+		map[string]interface{}{"a": map[string]interface{}{"a": leaf(), "b": map[string]interface{}{"a": leaf(), "b": leaf()}}, "b": map[string]interface{}{"a": leaf(), "b": map[string]interface{}{"b": leaf(), "a": leaf()}}},
+		[]interface{}{[]interface{}{leaf(), []interface{}{leaf(), leaf()}}, []interface{}{leaf(), []interface{}{leaf(), leaf()}}},
+		map[string]interface{}{"a": []interface{}{map[string]interface{}{"a": leaf(), "b": leaf()}, map[string]interface{}{"a": leaf(), "b": leaf()}}, "b": leaf()},
+		[]interface{}{map[string]interface{}{"a": leaf(), "b": leaf()}, map[string]interface{}{"a": leaf(), "b": leaf()}, map[string]interface{}{"b": leaf()}},
+		map[string]interface{}{"a": map[string]interface{}{"a": leaf(), "b": leaf(), "c": leaf()}, "b": map[string]interface{}{"a": leaf(), "b": leaf(), "c": leaf()}, "c": map[string]interface{}{"a": leaf(), "b": leaf()}},
+	)
+	return out
+}
